@@ -1434,6 +1434,9 @@ package desync
 //@   lit 1: ghost@after:GetChunk $last = $r1
 //@   lit 1: oncall RemoveChunk: requires repair && is($last, ChunkInvalid) && $arg0 == id
 //@   lit 1: oncall GetChunk: requires $arg0 == id
+//# F32: the worker reads through a store value that verifies what it reads, whatever the options of the store that is
+//# being verified say about reads (skip-verify in the configuration must not turn verify into a no-op)
+//@   lit 1: oncall GetChunk: requires @C16 !$recv.Opt.SkipVerify
 //@   lit 1: ghost@entry $removed = false
 //@   lit 1: ghost@loop1.head $removed = false
 //@   lit 1: ghost@after:RemoveChunk $removed = true
